@@ -1,1 +1,321 @@
-(* placeholder, filled below *)
+(* C13 — byte order, binary search, ranges, narrowing, token-table entry selection. *)
+From Coq Require Import List Bool Arith NArith ZArith Lia Sorting.Sorted.
+Import ListNotations.
+From C13 Require Import Model ProofsGlob ProofsKmp ProofsWild.
+
+(* ------------------------------------------------------------------ ranges *)
+
+Section RangeProofs.
+  Variable parse : bytes -> option Z.
+  (* every finite float64 lies between -MaxFloat64 and MaxFloat64 *)
+  Hypothesis parse_bounded : forall s k, parse s = Some k -> (- maxkey <= k <= maxkey)%Z.
+
+  Theorem range_check_spec r v : range_check parse r v = range_spec parse r v.
+  Proof.
+    unfold range_check, range_spec, num_search, end_is_num, num_check.
+    remember maxkey as M eqn:EM.
+    destruct (r_from r) as [f|]; destruct (r_to r) as [t|]; simpl.
+    - destruct (parse f) as [kf|]; simpl; [|reflexivity].
+      destruct (parse t) as [kt|]; simpl; reflexivity.
+    - destruct (parse f) as [kf|]; simpl; [|reflexivity].
+      destruct (parse v) as [k|] eqn:Ev; [|reflexivity].
+      apply parse_bounded in Ev. try rewrite <- EM in Ev. replace (k <=? M)%Z with true by (symmetry; apply Z.leb_le; lia).
+      reflexivity.
+    - destruct (parse t) as [kt|]; simpl; [|reflexivity].
+      destruct (parse v) as [k|] eqn:Ev; [|reflexivity].
+      apply parse_bounded in Ev. try rewrite <- EM in Ev. replace (- M <=? k)%Z with true by (symmetry; apply Z.leb_le; lia).
+      reflexivity.
+    - destruct (parse v) as [k|] eqn:Ev; [|reflexivity].
+      apply parse_bounded in Ev. try rewrite <- EM in Ev.
+      replace (- M <=? k)%Z with true by (symmetry; apply Z.leb_le; lia).
+      replace (k <=? M)%Z with true by (symmetry; apply Z.leb_le; lia). reflexivity.
+  Qed.
+End RangeProofs.
+
+(* ------------------------------------------------------------------ byte order is a total order *)
+
+Lemma bleb_nil b : bleb [] b = true.
+Proof. destruct b; reflexivity. Qed.
+
+Lemma bleb_cons x a y b :
+  bleb (x :: a) (y :: b) = true <-> (x < y)%N \/ (x = y /\ bleb a b = true).
+Proof.
+  unfold bleb. simpl. destruct (N.compare_spec x y) as [->|L|L].
+  - split; [intros H; right; split; [reflexivity | exact H] | intros [H|[_ H]]; [lia | exact H]].
+  - split; [now left | reflexivity].
+  - split; [discriminate | intros [H|[H _]]; lia].
+Qed.
+
+Lemma bleb_trans a : forall b c, bleb a b = true -> bleb b c = true -> bleb a c = true.
+Proof.
+  induction a as [|x a IH]; intros b c H1 H2; [apply bleb_nil|].
+  destruct b as [|y b]; [discriminate|]. destruct c as [|z c]; [discriminate|].
+  apply bleb_cons in H1. apply bleb_cons in H2. apply bleb_cons.
+  destruct H1 as [H1|[-> H1]]; destruct H2 as [H2|[-> H2]]; try (left; lia).
+  right. split; [reflexivity | eauto].
+Qed.
+
+Lemma bcmp_antisym a : forall b, bcmp b a = CompOpp (bcmp a b).
+Proof.
+  induction a as [|x a IH]; intros [|y b]; simpl; try reflexivity.
+  rewrite (N.compare_antisym x y). destruct (N.compare x y); simpl; auto.
+Qed.
+
+Lemma bltb_not_le a b : bltb a b = negb (bleb b a).
+Proof. unfold bltb, bleb. rewrite (bcmp_antisym a b). destruct (bcmp a b); reflexivity. Qed.
+
+Lemma bleb_total a b : bleb a b = true \/ bleb b a = true.
+Proof. unfold bleb. rewrite (bcmp_antisym a b). destruct (bcmp a b); auto. Qed.
+
+Lemma bltb_le a b : bltb a b = true -> bleb a b = true.
+Proof. unfold bltb, bleb. destruct (bcmp a b); auto; discriminate. Qed.
+
+Lemma ble_antisym a b : bleb a b = true -> bleb b a = true -> a = b.
+Proof.
+  unfold bleb. rewrite (bcmp_antisym a b). intros H1 H2. apply bcmp_eq.
+  destruct (bcmp a b); auto; discriminate.
+Qed.
+
+Lemma bleb_refl a : bleb a a = true.
+Proof. unfold bleb. replace (bcmp a a) with Eq; [reflexivity|]. symmetry. now apply bcmp_eq. Qed.
+
+Lemma blt_le_trans a b c : bltb a b = true -> bleb b c = true -> bltb a c = true.
+Proof.
+  intros H1 H2. rewrite bltb_not_le in *. apply negb_true_iff in H1. apply negb_true_iff.
+  destruct (bleb c a) eqn:E; [|reflexivity]. rewrite (bleb_trans b c a H2 E) in H1. discriminate.
+Qed.
+
+Lemma ble_lt_trans a b c : bleb a b = true -> bltb b c = true -> bltb a c = true.
+Proof.
+  intros H1 H2. rewrite bltb_not_le in *. apply negb_true_iff in H2. apply negb_true_iff.
+  destruct (bleb c a) eqn:E; [|reflexivity]. rewrite (bleb_trans c a b E H1) in H2. discriminate.
+Qed.
+
+Lemma bltb_irrefl a : bltb a a = false.
+Proof. rewrite bltb_not_le, bleb_refl. reflexivity. Qed.
+
+Lemma cut_mono l : forall a b, bleb a b = true -> bleb (cut a l) (cut b l) = true.
+Proof.
+  unfold cut. induction l as [|l IH]; intros a b H; simpl; [reflexivity|].
+  destruct a as [|x a]; [apply bleb_nil|]. destruct b as [|y b]; [discriminate|].
+  apply bleb_cons in H. apply bleb_cons. destruct H as [H|[-> H]]; [now left | right; split; auto].
+Qed.
+
+Lemma cut_prefix p v : cut v (length p) = p <-> exists r, v = p ++ r.
+Proof.
+  unfold cut. split.
+  - intros H. exists (skipn (length p) v). rewrite <- H at 1. now rewrite firstn_skipn.
+  - intros (r & ->). rewrite firstn_app, Nat.sub_diag, firstn_all. simpl. now rewrite app_nil_r.
+Qed.
+
+(* ------------------------------------------------------------------ sort.Search *)
+
+Lemma bsearch_spec fuel : forall f i j,
+  (i <= j)%Z -> (Z.to_nat (j - i) < fuel)%nat ->
+  (forall a b, (i <= a <= b)%Z -> (b < j)%Z -> f a = true -> f b = true) ->
+  exists r, bsearch fuel f i j = Some r /\ (i <= r <= j)%Z /\
+            (forall a, (i <= a < r)%Z -> f a = false) /\ (forall a, (r <= a < j)%Z -> f a = true).
+Proof.
+  induction fuel as [|fuel IH]; intros f i j Lij Hf Hm; [lia|].
+  simpl. destruct (Z.ltb_spec i j) as [L|L].
+  2:{ exists i. split; [reflexivity|]. split; [lia|]. split; intros; lia. }
+  set (h := ((i + j) / 2)%Z).
+  assert (Hh : (i <= h < j)%Z).
+  { unfold h. split; [apply Z.div_le_lower_bound | apply Z.div_lt_upper_bound]; lia. }
+  destruct (f h) eqn:Efh.
+  - destruct (IH f i h) as (r & E & B & Lo & Hi); try lia.
+    { intros a b Hab Hb. apply Hm; lia. }
+    exists r. split; [exact E|]. split; [lia|]. split; [exact Lo|].
+    intros a Ha. destruct (Z.ltb_spec a h); [apply Hi; lia|]. apply (Hm h a); auto; lia.
+  - destruct (IH f (h + 1)%Z j) as (r & E & B & Lo & Hi); try lia.
+    { intros a b Hab Hb. apply Hm; lia. }
+    exists r. split; [exact E|]. split; [lia|]. split; [|exact Hi].
+    intros a Ha. destruct (Z.ltb_spec h a); [apply Lo; lia|].
+    destruct (f a) eqn:Efa; [|reflexivity]. rewrite (Hm a h) in Efh; auto; try lia. 
+  Qed.
+
+Lemma bin_search_spec from to fn :
+  (from <= to + 1)%Z ->
+  (forall a b, (from <= a <= b)%Z -> (b <= to)%Z -> fn a = true -> fn b = true) ->
+  exists r, bin_search_in_range from to fn = Some r /\ (from <= r <= to + 1)%Z /\
+            (forall a, (from <= a < r)%Z -> fn a = false) /\ (forall a, (r <= a <= to)%Z -> fn a = true).
+Proof.
+  intros L Hm. unfold bin_search_in_range, sort_search.
+  destruct (bsearch_spec (S (Z.to_nat (to - from + 1))) (fun i => fn (from + i)%Z) 0 (to - from + 1))
+    as (r & E & B & Lo & Hi); try lia.
+  { intros a b Hab Hb. apply Hm; lia. }
+  rewrite E. exists (from + r)%Z. split; [reflexivity|]. split; [lia|]. split.
+  - intros a Ha. replace a with (from + (a - from))%Z by lia. apply Lo. lia.
+  - intros a Ha. replace a with (from + (a - from))%Z by lia. apply Hi. lia.
+Qed.
+
+(* ------------------------------------------------------------------ the Search loop *)
+
+Lemma spec_scan_false m : forall l tid,
+  (forall i, i < length l -> m (nth i l []) = false) -> spec_scan m tid l = [].
+Proof.
+  induction l as [|v l IH]; intros tid H; simpl; [reflexivity|].
+  pose proof (H 0 ltac:(simpl; lia)) as X. simpl in X. rewrite X. apply IH. intros i Hi. apply (H (S i)). simpl. lia.
+Qed.
+
+Lemma scan_sub chk m : forall dict first a b,
+  (forall i, i < a -> i < length dict -> m (nth i dict []) = false) ->
+  (forall i, a + b <= i -> i < length dict -> m (nth i dict []) = false) ->
+  (forall i, a <= i < a + b -> i < length dict -> chk (nth i dict []) = Some (m (nth i dict []))) ->
+  scan chk (first + Z.of_nat a)%Z (firstn b (skipn a dict)) = Some (spec_scan m first dict).
+Proof.
+  induction dict as [|v d IH]; intros first a b H1 H2 H3.
+  - rewrite skipn_nil, firstn_nil. reflexivity.
+  - destruct a as [|a].
+    + destruct b as [|b].
+      * simpl. rewrite spec_scan_false; [reflexivity|].
+        intros i Hi. apply H2; [lia | exact Hi].
+      * simpl. pose proof (H3 0 ltac:(lia) ltac:(simpl; lia)) as X. simpl in X. rewrite X.
+        specialize (IH (first + 1)%Z 0 b). simpl in IH. rewrite Z.add_0_r in *.
+        rewrite IH.
+        -- destruct (m v); reflexivity.
+        -- intros i Hi. lia.
+        -- intros i Hi Hl. apply (H2 (S i)); simpl; lia.
+        -- intros i Hi Hl. apply (H3 (S i)); simpl; lia.
+    + simpl. pose proof (H1 0 ltac:(lia) ltac:(simpl; lia)) as X. simpl in X. rewrite X.
+      replace (first + Z.pos (Pos.of_succ_nat a))%Z with ((first + 1) + Z.of_nat a)%Z by lia.
+      apply IH.
+      * intros i Hi Hl. apply (H1 (S i)); simpl; lia.
+      * intros i Hi Hl. apply (H2 (S i)); simpl; lia.
+      * intros i Hi Hl. apply (H3 (S i)); simpl; lia.
+Qed.
+
+Lemma tok_idx first dict i : tok first dict (first + Z.of_nat i) = nth i dict [].
+Proof. unfold tok. f_equal. lia. Qed.
+
+Lemma scan_range_sub chk m first dict sf sl :
+  (first <= sf)%Z -> (sf <= sl + 1)%Z -> (sl <= last_tid first dict)%Z ->
+  (forall tid, (first <= tid < sf)%Z -> m (tok first dict tid) = false) ->
+  (forall tid, (sl < tid <= last_tid first dict)%Z -> m (tok first dict tid) = false) ->
+  (forall tid, (sf <= tid <= sl)%Z -> chk (tok first dict tid) = Some (m (tok first dict tid))) ->
+  scan_range first dict sf sl chk = Some (spec_scan m first dict).
+Proof.
+  intros L1 L2 L3 H1 H2 H3. unfold scan_range, last_tid in *.
+  replace sf with (first + Z.of_nat (Z.to_nat (sf - first)))%Z at 1 by lia.
+  apply scan_sub.
+  - intros i Hi Hl. rewrite <- (tok_idx first). apply H1. lia.
+  - intros i Hi Hl. rewrite <- (tok_idx first). apply H2. lia.
+  - intros i Hi Hl. rewrite <- (tok_idx first). apply H3. lia.
+Qed.
+
+Definition wfq (q : query) : Prop := match q with QLit ts => wf ts = true | QRange _ => True end.
+
+Definition lt_bytes (a b : bytes) : Prop := bltb a b = true.
+
+Lemma sorted_idx dict : StronglySorted lt_bytes dict ->
+  forall i j, i < j -> j < length dict -> bltb (nth i dict []) (nth j dict []) = true.
+Proof.
+  induction 1 as [|a l HS IH HF]; intros i j Hij Hj; simpl in Hj; [lia|].
+  destruct j as [|j]; [lia|]. destruct i as [|i]; simpl.
+  - rewrite Forall_forall in HF. apply HF. apply nth_In. lia.
+  - apply IH; lia.
+Qed.
+
+Lemma tok_sorted first dict : StronglySorted lt_bytes dict ->
+  forall a b, (first <= a)%Z -> (a < b)%Z -> (b <= last_tid first dict)%Z ->
+  bltb (tok first dict a) (tok first dict b) = true.
+Proof.
+  intros HS a b L1 L2 L3. unfold tok, last_tid in *. apply sorted_idx; auto; lia.
+Qed.
+
+Lemma tok_sorted_le first dict : StronglySorted lt_bytes dict ->
+  forall a b, (first <= a)%Z -> (a <= b)%Z -> (b <= last_tid first dict)%Z ->
+  bleb (tok first dict a) (tok first dict b) = true.
+Proof.
+  intros HS a b L1 L2 L3. destruct (Z.eq_dec a b) as [->|N]; [apply bleb_refl|].
+  apply bltb_le. apply tok_sorted; auto; lia.
+Qed.
+
+Section SearchProofs.
+  Variable parse : bytes -> option Z.
+  Hypothesis parse_bounded : forall s k, parse s = Some k -> (- maxkey <= k <= maxkey)%Z.
+
+  Lemma is_literal_some ts s : is_literal ts = Some s -> ts = [TText s].
+  Proof. destruct ts as [|[x|] [|? ?]]; simpl; intros H; inversion H; reflexivity. Qed.
+
+  (* unordered provider (active fraction): Search returns exactly the tokens the spec accepts *)
+  Theorem search_unordered first dict q : wfq q ->
+    search parse false first dict q = Some (spec_scan (spec_match parse q) first dict).
+  Proof.
+    intros W. unfold search. destruct q as [ts|r]; simpl in *.
+    - destruct (is_literal ts) as [value|] eqn:El.
+      + apply is_literal_some in El. subst ts.
+        apply scan_range_sub; unfold last_tid; try lia.
+        intros tid _. now rewrite lit_check_glob.
+      + apply scan_range_sub; unfold last_tid; try lia.
+        intros tid _. apply wild_check_glob; auto. discriminate.
+    - apply scan_range_sub; unfold last_tid; try lia.
+      intros tid _. now rewrite range_check_spec.
+  Qed.
+
+  (* ordered provider (sealed dictionary): narrowing by binary search changes nothing *)
+  Theorem search_ordered first dict q : wfq q -> StronglySorted lt_bytes dict ->
+    search parse true first dict q = Some (spec_scan (spec_match parse q) first dict).
+  Proof.
+    intros W HS. unfold search. destruct q as [ts|r]; simpl in *.
+    2:{ apply scan_range_sub; unfold last_tid; try lia.
+        intros tid _. now rewrite range_check_spec. }
+    set (last := last_tid first dict).
+    destruct (is_literal ts) as [value|] eqn:El.
+    - apply is_literal_some in El. subst ts. unfold lit_narrow. fold last.
+      destruct (bin_search_spec first last (fun tid => bleb value (tok first dict tid)))
+        as (f & -> & Bf & Lo & Hi).
+      { unfold last, last_tid. lia. }
+      { intros a b Hab Hb Ha. eapply bleb_trans; [exact Ha|]. apply tok_sorted_le; auto; lia. }
+      assert (Hneq : forall tid, (first <= tid < f)%Z -> glob [TText value] (tok first dict tid) = false).
+      { intros tid Ht. rewrite <- lit_check_glob. simpl. specialize (Lo tid Ht). simpl in Lo.
+        destruct (beqb value (tok first dict tid)) eqn:E; [|reflexivity].
+        apply beqb_true in E. rewrite <- E, bleb_refl in Lo. discriminate. }
+      destruct ((f <=? last)%Z && beqb (tok first dict f) value) eqn:Efound.
+      + apply andb_true_iff in Efound as (Lf & Ef). apply Z.leb_le in Lf. apply beqb_true in Ef.
+        apply scan_range_sub; fold last; try lia; auto.
+        * intros tid Ht. rewrite <- lit_check_glob. simpl.
+          destruct (beqb value (tok first dict tid)) eqn:E; [|reflexivity].
+          apply beqb_true in E. pose proof (tok_sorted first dict HS f tid) as X.
+          rewrite Ef, <- E, bltb_irrefl in X. apply X; fold last; lia.
+        * intros tid Ht. assert (tid = f) by lia. subst tid. rewrite <- lit_check_glob, Ef. simpl.
+          now rewrite Nat.eqb_refl, (proj2 (beqb_true value value) eq_refl).
+      + apply scan_range_sub; fold last; try lia; auto.
+        * intros tid Ht. rewrite <- lit_check_glob. simpl.
+          destruct (beqb value (tok first dict tid)) eqn:E; [|reflexivity].
+          apply beqb_true in E. exfalso.
+          assert (Lf : (f <= last)%Z) by lia.
+          destruct (Z.eq_dec tid f) as [->|N].
+          -- rewrite <- E in Efound. rewrite (proj2 (beqb_true value value) eq_refl) in Efound.
+             rewrite andb_true_r in Efound. apply Z.leb_gt in Efound. lia.
+          -- pose proof (tok_sorted first dict HS f tid) as X.
+             assert (Hf : bleb value (tok first dict f) = true) by (apply Hi; lia).
+             rewrite <- E in X. rewrite (ble_lt_trans _ _ _ Hf (X ltac:(lia) ltac:(lia) ltac:(fold last; lia))) in *.
+             pose proof (bltb_irrefl value). congruence.
+        * intros tid Ht. lia.
+    - assert (Lit : is_literal ts = None) by exact El.
+      set (w := new_wildcard ts). unfold wild_narrow. fold last.
+      set (p := w_prefix w). set (c := fun tid => cut (tok first dict tid) (length p)).
+      assert (cmono : forall a b, (first <= a <= b)%Z -> (b <= last)%Z -> bleb (c a) (c b) = true).
+      { intros a b Hab Hb. apply cut_mono. apply tok_sorted_le; auto; lia. }
+      destruct (bin_search_spec first last (fun tid => bleb p (c tid))) as (f & -> & Bf & Lo & Hi).
+      { unfold last, last_tid. lia. }
+      { intros a b Hab Hb Ha. eapply bleb_trans; [exact Ha|]. apply cmono; lia. }
+      destruct (bin_search_spec f last (fun tid => bltb p (c tid))) as (e & -> & Be & Lo2 & Hi2).
+      { lia. }
+      { intros a b Hab Hb Ha. eapply blt_le_trans; [exact Ha|]. apply cmono; lia. }
+      assert (Hpre : forall tid, glob ts (tok first dict tid) = true -> c tid = p).
+      { intros tid G. apply (glob_has_prefix ts _ W Lit) in G. apply cut_prefix. exact G. }
+      apply scan_range_sub; fold last; try lia.
+      + intros tid Ht. destruct (glob ts (tok first dict tid)) eqn:G; [|reflexivity].
+        apply Hpre in G. specialize (Lo tid Ht). simpl in Lo. rewrite G, bleb_refl in Lo. discriminate.
+      + intros tid Ht. destruct (glob ts (tok first dict tid)) eqn:G; [|reflexivity].
+        apply Hpre in G. specialize (Hi2 tid ltac:(lia)). simpl in Hi2.
+        rewrite G, bltb_irrefl in Hi2. discriminate.
+      + intros tid Ht. apply wild_check_glob; auto. intros _. apply cut_prefix. fold p. fold (c tid).
+        apply ble_antisym.
+        * specialize (Lo2 tid ltac:(lia)). simpl in Lo2. rewrite bltb_not_le in Lo2.
+          now apply negb_false_iff in Lo2.
+        * apply Hi. lia.
+  Qed.
+End SearchProofs.
